@@ -36,6 +36,7 @@ func seqConfigs() []seqCfg {
 		{Name: "expiry100s-empty-cache", Expiry: 100 * time.Second, Declared: []string{"d"}, Names: []string{"d", "u"}},
 		{Name: "no-expiry-empty-cache", Expiry: 0, Declared: []string{"d"}, Names: []string{"d", "u"}},
 		{Name: "expiry100s-initial-cache-stamps-0-old-recent", Expiry: 100 * time.Second, Declared: []string{"d"}, Names: []string{"d", "u", "x"}, Extra: []string{"w"}, Initial: initial},
+		{Name: "expiry100s-running-polling-task", Expiry: 100 * time.Second, Declared: []string{"d"}, Names: []string{"d", "u"}, Poller: true},
 		{Name: "no-expiry-initial-cache-stamps-0-old-recent", Expiry: 0, Declared: []string{"d"}, Names: []string{"d", "u"}, Extra: []string{"w", "x"}, Initial: initial},
 	}
 }
